@@ -24,6 +24,9 @@ Correspondence (Lean model NipyVerif.Model.C15*, driver lines):
                                      mul, scalar, pow, deriv(k), __call__, ==
   ivmul quasi eccone                 IntrinsicVolumes product, ECcone.quasi, ECcone.__call__ (kernel, tail, 2 pi
                                      powers as parameters)
+  (wave 5) stathist: quasi line for the state of a statistic object after a history of evaluations;
+  ecvec: eccone lines for the elements of a batch evaluation; Gen/C15Source.lean: function bodies of intvol.pyx /
+  rft.py as Lean terms (harness/props/c15_translate.py), proved to be the model's in Props/C15Source.lean
 Oracle: the property's clauses on the real code (independent brute-force
 complex, box formula, invariances, published EC densities, closed forms of the
 search regions, decompose = complex of the box, curvature coefficients).
@@ -246,7 +249,7 @@ class C15(PropertyCheck):
     id = "C15"
     title = "Intrinsic volumes, Euler characteristic and EC densities are exact"
     lean_modules = ["NipyVerif.Props.C15", "NipyVerif.Props.C15B", "NipyVerif.Props.C15Loop", "NipyVerif.Props.C15C",
-                    "NipyVerif.Props.C15D", "NipyVerif.Props.C15E"]
+                    "NipyVerif.Props.C15D", "NipyVerif.Props.C15E", "NipyVerif.Props.C15Source", "NipyVerif.Props.C15F"]
     driver = "Drivers/C15.lean"
     rule = ("cases: binary masks in 1/2/3-d (thorough: every mask on 3x3, 2x2x3 and length 8; random masks on "
             "larger grids, boxes and masks touching faces/edges/corners; C/F/transposed/strided/negative-stride layouts, "
@@ -254,7 +257,10 @@ class C15(PropertyCheck):
             "scales 2^-14..2^6), per-shape simplex tables, cubes at arbitrary (negative) centres and strides, "
             "decompose2d/3d of boxes, strides_from for dtypes of every item size and both orders, the driver's sqrt/acos, "
             "rft Q (dfd = inf and finite) / ECquasi operation / IntrinsicVolumes product / ECcone.quasi / ECcone.__call__ "
-            "/ density parameter tuples; distinct by JSON of the case; non-trivial = mask with at least one edge of the "
+            "/ density parameter tuples; histories of evaluations on one statistic object (every class incl. OneSidedF, "
+            "search region as list / tuple / int8 / float32 / IntrinsicVolumes) with the object observed before and after "
+            "each step; thresholds as arrays of rank 0..2 incl. empty, list / float32 / int16 / Fortran / strided / "
+            "negative-stride / read-only; distinct by JSON of the case; non-trivial = mask with at least one edge of the "
             "complex, or dim >= 1 density, or degree >= 2 polynomial, or a product / assembly of >= 2 terms")
     assumptions = [
         "libm is a parameter of the Lips model (structure Num: sqrt, acos, PI). Theorems hold for every Num, or under the "
@@ -279,6 +285,20 @@ class C15(PropertyCheck):
         "rounding); shapes with a zero extent are outside the loop theorems (the loops do not run)",
         "ChiBarSquared (its __call__ is dead code raising AttributeError) and Roy/OneSidedF closed forms are outside the "
         "density oracle (Roy and OneSidedF are executed; Roy goes through the eccone correspondence)",
+        "source tie (wave 5): Gen/C15Source.lean is regenerated by harness/props/c15_translate.py from the text of "
+        "intvol.pyx (mu1_edge, mu2_tri, mu1_tri, mu3_tet, mu2_tet, limited_acos, _mu1_tetface, mu1_tet: whole bodies, "
+        "statement by statement; sqrt / acos / PI are the fields of Num) and rft.py (ECquasi.denom_poly, compatible, "
+        "__mul__ both branches, __call__, __pow__, change_exponent, __add__ (finite m), the two terms of deriv; "
+        "IntrinsicVolumes.__mul__; the weight, kernels, tail test and tail term of ECcone.__call__; the test, exponent and "
+        "Q-dimension of _quasi_polynomials; the even/odd test of quasi; loop count, Gamma argument, factor and index of Q; "
+        "the cone and threshold transform of the seven statistic classes as a table); np.power / np.exp / gammaln / np.log "
+        "are named leaves (parameters of the theorems). A source shape the translator does not know raises TieBroken. "
+        "Not regenerated: the EC / Lips loop nests of intvol.pyx (modelled by hand, tables regenerated), __sub__ / __eq__ / "
+        "__repr__ / __setattr__ of ECquasi, the m = inf branches other than their shape, mu_sphere / mu_ball / "
+        "volume2ball / scale_space (numeric oracle only)",
+        "a cast of the threshold to float64 at the head of a statistic's __call__ and statements after its last "
+        "ECcone.__call__ (state restoring) are not part of the regenerated table of cones; they are covered by the "
+        "ecvec / stathist cases (batch = element-wise in every dtype; the object is the same cone after an evaluation)",
         "not executed on purpose: utils.z_score / multiple_fast_inv / multiple_mahalanobis (statistics helpers of other "
         "properties, C20), ECquasi.__div__ semantics under Python 3 (`/` never reaches it; the stub is only called directly)",
     ]
@@ -289,7 +309,11 @@ class C15(PropertyCheck):
                   "embedding, the rescaling law, exact top-dimensional volume/area/length of every box under every affine "
                   "field; strides_from; decompose tables; ECquasi operations incl. deriv (formal derivative, chain rule), "
                   "Hermite three-term recurrence and inversion, Gaussian, t and chi^2 densities of order 1..3 (polynomial parts); "
-                  "mu2 of 3-d boxes and mu1 of 2-d boxes. Numeric only (oracle): mu1 of 3-d boxes (angle sums), F / "
+                  "mu2 of 3-d boxes and mu1 of 2-d boxes; the regenerated source terms are the model's (Props/C15Source: "
+                  "every mu* routine of intvol.pyx, ECquasi add / mul / call / pow / change_exponent / deriv terms, "
+                  "IntrinsicVolumes.__mul__, _quasi_polynomials, the Q loop); IntrinsicVolumes.__mul__ is polynomial "
+                  "multiplication (commutative, associative, unit [1]; search and product of ECcone interchangeable; "
+                  "product of three intervals = (1, a+b+c, ab+bc+ca, abc)) (Props/C15F). Numeric only (oracle): mu1 of 3-d boxes (angle sums), F / "
                   "Hotelling / Roy / multilinear densities, tail probabilities, Gamma identities; acos/PI of the driver")
     finding_keys = {KEY_SINGLE_VOXEL: "(fixed in /repo 577b5e1) Lips3d on a mask of shape (1,1,1) with the voxel set returned "
                                       "[0,0,0,0]: after np.squeeze the mask is 0-d and neither delegation branch ran; the "
@@ -369,7 +393,8 @@ class C15(PropertyCheck):
                f"def decomp2Neg2 : List (Int × Int) := {tl(cen['d2_2'])}\n"
                f"def decomp2Neg1 : List Int := {tl(cen['d2_1'])}\n"
                "end NipyVerif.Gen.C15\n")
-        return [("NipyVerif/Gen/C15Tables.lean", txt)]
+        from harness.props import c15_translate
+        return [("NipyVerif/Gen/C15Tables.lean", txt)] + c15_translate.translate(REPO, TieBroken)
 
     # shapes (sha1 of the unparsed AST without docstring, centre literals masked) of the table builders the model
     # writes out by hand; an edit of their structure breaks the tie, an edit of a centre literal flows into Lean
@@ -667,6 +692,44 @@ class C15(PropertyCheck):
                     xx = -xx
                 cases.append(dict(cc, kind="eccone", x=xx,
                                   search=[float(rng.choice([0, 0, 1, 2, 0.5, 10])) for _ in range(rng.choice([1, 2, 3, 4]))]))
+        # wave 5: histories on ONE statistic object (evaluations interleaved with observations of the object through
+        # the generic cone API: the object is a value) and thresholds / search regions presented as arrays of other
+        # dtypes, layouts and ranks (batch evaluation = element-wise evaluation; the caller's arrays stay untouched)
+        def cone_params(stats):
+            st = rng.choice(stats)
+            cc = {"stat": st, "dfn": rng.choice([1, 2, 3, 4, 5, 6]), "k": rng.choice([1, 2, 3]),
+                  "dfd": rng.choice(["inf", 3, 4, 5, 7, 10, 20, 40.5]) if st != "t" else rng.choice([3, 4, 5, 7, 10, 20, 40.5]),
+                  "dims": [rng.choice([1, 2, 3]) for _ in range(rng.choice([1, 2]))]}
+            if st == "gauss":
+                cc["mu"] = [float(rng.choice([0, 1, 2, 0.5])) for _ in range(rng.choice([1, 1, 2, 3]))]
+            if st == "mlf":
+                cc["dfd"] = "inf"
+            if st == "osf":
+                cc["dfn"] = rng.choice([2, 3, 4, 5])
+            return cc
+        for _ in range(50 if quick else 600):
+            cc = cone_params(["gauss", "t", "chi2", "F", "hotelling", "roy", "mlf", "osf", "osf"])
+            ops = []
+            for _k in range(rng.choice([1, 1, 2, 3])):
+                ops.append({"op": rng.choice(["call", "call", "density", "pvalue", "quasi"]),
+                            "x": rng.choice([0.25, 0.5, 1.0, 1.75, 2.5, 3.0, 4.5]), "dim": rng.choice([0, 1, 2, 3]),
+                            "search": [float(rng.choice([0, 1, 1, 2, 0.5, 10])) for _ in range(rng.choice([1, 2, 3]))],
+                            "as": rng.choice(["list", "tuple", "int", "iv", "f32", "none"])})
+            cases.append(dict(cc, kind="stathist", ops=ops, dim0=rng.choice([0, 1, 1, 2, 3]),
+                              x0=rng.choice([0.5, 1.0, 1.5, 2.5, 4.0])))
+        for _ in range(40 if quick else 500):
+            cc = cone_params(["gauss", "t", "chi2", "F", "hotelling", "roy", "mlf"])
+            shp = rng.choice([[], [1], [2], [3], [2, 2], [1, 3], [0], [2, 0]])
+            n = int(np.prod(shp)) if shp else 1
+            xs = [rng.choice([0.25, 0.5, 1.0, 1.75, 2.0, 3.0, 4.5, 6.0]) for _ in range(n)]
+            pres = rng.choice(["list", "f64", "f64-F", "f32", "int", "strided", "readonly", "neg-stride"])
+            if pres == "int":
+                xs = [float(rng.choice([0, 1, 2, 3, 4, 6])) for _ in range(n)]
+            if cc["stat"] in ("gauss", "t") and rng.random() < 0.4:
+                xs = [-v for v in xs]
+            cases.append(dict(cc, kind="ecvec", shape=shp, xs=xs, pres=pres,
+                              search=[float(rng.choice([0, 0, 1, 2, 0.5, 10])) for _ in range(rng.choice([1, 2, 3]))],
+                              search_as=rng.choice(["list", "tuple", "int", "iv", "f32"])))
         n_d = 160 if quick else 2500
         for _ in range(n_d):
             stat = rng.choice(["gauss", "t", "F", "F", "chi2", "chi2", "hotelling", "mlf", "chi2_dfd", "F_inf"])
@@ -1241,6 +1304,156 @@ class C15(PropertyCheck):
         return {"lines": [line], "impl": [("num-rel", got)], "oracle": fail, "nontrivial": ns >= 2,
                 "tags": ["eccone-" + c["stat"], f"search{len(search)}"], "mutated": None}
 
+    @staticmethod
+    def _present_search(rft, search, how):
+        """the same search region as a list / tuple / integer array / IntrinsicVolumes / float32 array"""
+        if how == "none":
+            return None
+        if how == "tuple":
+            return tuple(search)
+        if how == "int" and all(float(v).is_integer() for v in search):
+            return np.array(search, dtype=np.int8)
+        if how == "iv":
+            return rft.IntrinsicVolumes(list(search))
+        if how == "f32":
+            return np.array(search, dtype=np.float32)
+        return list(search)
+
+    @staticmethod
+    def _search_vals(sv):
+        if sv is None:
+            return None
+        return [float(v) for v in (sv.mu if hasattr(sv, "mu") else sv)]
+
+    def _stathist(self, c):
+        """a history of evaluations on ONE statistic object, the object observed through the generic cone API
+        (order, mu, product, search, quasi(dim0), ECcone.__call__ at x0) before and after every step; every result
+        compared with a fresh object's; the model assembles quasi(dim0) from the initial state"""
+        from nipy.algorithms.statistics import rft
+        from harness.util import errname
+        dfd = np.inf if c["dfd"] == "inf" else float(c["dfd"])
+
+        def make():
+            if c["stat"] == "osf":
+                return rft.OneSidedF(c["dfn"], dfd=dfd)
+            return self._cone(rft, c)[0]
+
+        def state(o):
+            return {"order": int(o.order), "mu": [float(v) for v in o.mu], "product": [float(v) for v in o.product.mu],
+                    "search": [float(v) for v in o.search.mu], "dfd": float(o.dfd)}
+
+        def view(o):
+            try:
+                q = o.quasi(c["dim0"])
+                qo = ("eqpair", self._eq_obs(q[0]), self._eq_obs(q[1])) if isinstance(q, tuple) else \
+                    ("eqpair", self._eq_obs(q), ("eqres", "inf", 0, [0.0]))
+            except Exception as e:   # noqa: BLE001
+                qo = ("err", errname(e))
+            try:
+                g = float(rft.ECcone.__call__(o, c["x0"]))
+            except Exception as e:   # noqa: BLE001
+                g = errname(e)
+            return qo, g
+
+        def apply(o, op, sv):
+            try:
+                return apply0(o, op, sv)
+            except Exception as e:   # noqa: BLE001
+                return "raised " + errname(e)
+
+        def apply0(o, op, sv):
+            if op["op"] == "call":
+                return float(o(op["x"], search=sv))
+            if op["op"] == "density":
+                return float(o.density(op["x"], op["dim"]))
+            if op["op"] == "pvalue":
+                return float(o.pvalue(op["x"], search=sv))
+            q = o.quasi(op["dim"])
+            return repr([self._eq_obs(t) for t in q] if isinstance(q, tuple) else self._eq_obs(q))
+        obj = make()
+        s0, v0 = state(obj), view(obj)
+        fail = None
+        name = type(obj).__name__
+        for i, op in enumerate(c["ops"]):
+            sv = self._present_search(rft, op["search"], op["as"])
+            keep = self._search_vals(sv)
+            used = apply(obj, op, sv)
+            fresh = apply(make(), op, self._present_search(rft, op["search"], "list" if op["as"] != "none" else "none"))
+            same = used == fresh if isinstance(used, str) else close(used, fresh, 1e-12, 1e-300)
+            if fail is None and not same:
+                fail = f"{name}: step {i} {op} gives {used!r} on the used object but {fresh!r} on a fresh one"
+            if fail is None and self._search_vals(sv) != keep:
+                fail = f"{name}: step {i} {op} changed the caller's search region {keep} -> {self._search_vals(sv)}"
+            s1 = state(obj)
+            if fail is None and s1 != s0:
+                fail = f"{name}: after step {i} {op} the object changed: {s0} -> {s1}"
+            v1 = view(obj)
+            if fail is None and v1 != v0:
+                fail = (f"{name}: quasi({c['dim0']}) / ECcone.__call__(obj, {c['x0']}) were {v0} on the new object and are "
+                        f"{v1} after step {i} {op}")
+        cs = [float(v) for v in np.asarray(s0["mu"]) / np.power(2 * np.pi, np.arange(len(s0["mu"])) / 2.)]
+        dim, m = c["dim0"], s0["dfd"]      # the object's dfd (Gaussian / MultilinearForm: inf whatever the case says)
+        qs = [self._polytxt(rft.Q(k + dim, dfd=m)) if k + dim > 0 else "0" for k in range(len(cs))]
+        mt = "inf" if not np.isfinite(m) else fr(float(m))
+        line = f"quasi {mt} {dim} {len(cs)} {frs(cs)} {len(qs)} " + " ".join(qs)
+        return {"lines": [line], "impl": [view(obj)[0]], "oracle": fail, "nontrivial": len(c["ops"]) >= 2 or len(cs) >= 2,
+                "tags": ["hist-" + c["stat"]] + ["hist-op-" + op["op"] for op in c["ops"]], "mutated": None}
+
+    def _ecvec(self, c):
+        """thresholds as an array of any rank / dtype / layout and search regions of any presentation: the batch
+        result is the element-wise one (shape kept), the caller's arrays are untouched, and every element goes
+        through the model's `eccone` line"""
+        from nipy.algorithms.statistics import rft
+        obj, _ = self._cone(rft, c)
+        shp, pres = tuple(c["shape"]), c["pres"]
+        base = np.array(c["xs"], dtype=np.float64).reshape(shp)
+        if pres == "list":
+            x = base.tolist() if shp else float(base)
+            if shp and base.size == 0:
+                x = base      # an empty nested list loses its shape
+        elif pres == "f64-F" and shp:
+            x = np.asfortranarray(base)
+        elif pres == "f32":
+            x = base.astype(np.float32)
+        elif pres == "int":
+            x = base.astype(np.int16)
+        elif pres == "strided" and shp:
+            big = np.zeros(tuple(2 * n for n in shp)); big[tuple(slice(None, None, 2) for _ in shp)] = base
+            x = big[tuple(slice(None, None, 2) for _ in shp)]
+        elif pres == "neg-stride" and shp:
+            x = np.ascontiguousarray(base[tuple(slice(None, None, -1) for _ in shp)])[tuple(slice(None, None, -1) for _ in shp)]
+        elif pres == "readonly":
+            x = base.copy(); x.setflags(write=False)
+        else:
+            x = base.copy()
+        keep = np.array(x, dtype=np.float64, copy=True)
+        sv = self._present_search(rft, c["search"], c["search_as"])
+        skeep = self._search_vals(sv)
+        got = obj(x, search=sv)
+        fail = None
+        name = type(obj).__name__
+        if np.shape(got) != shp:
+            fail = f"{name}(x of shape {shp}, {pres}) returned shape {np.shape(got)}"
+        if fail is None and not np.array_equal(np.array(x, dtype=np.float64), keep):
+            fail = f"{name}: the caller's threshold array was modified"
+        if fail is None and self._search_vals(sv) != skeep:
+            fail = f"{name}: the caller's search region was modified: {skeep} -> {self._search_vals(sv)}"
+        lines, impl = [], []
+        flat = np.asarray(got, dtype=np.float64).reshape(-1) if fail is None else []
+        for i, gi in enumerate(flat):
+            xi = float(keep.reshape(-1)[i])
+            one = self._eccone(dict(c, x=xi))
+            if fail is None and one["oracle"]:
+                fail = one["oracle"]
+            sc = float(obj(xi, search=list(c["search"])))
+            if fail is None and not close(float(gi), sc, 1e-12, 1e-300):
+                fail = (f"{name}: element {i} of the batch evaluation ({pres}, shape {shp}, search as {c['search_as']}) "
+                        f"is {float(gi)!r}, the scalar evaluation at {xi} gives {sc!r}")
+            if i < 3:
+                lines += one["lines"]; impl.append(("num-rel", float(gi)))
+        return {"lines": lines, "impl": impl, "oracle": fail, "nontrivial": len(flat) >= 2 or len(c["search"]) >= 2,
+                "tags": ["ecvec-" + c["stat"], "x-" + pres, "search-" + c["search_as"], f"rank{len(shp)}"], "mutated": None}
+
     def _hermite(self, c):
         from nipy.algorithms.statistics import rft
         from harness.util import errname
@@ -1531,6 +1744,28 @@ class C15(PropertyCheck):
                         sub = m[tuple(sl if a == ax else slice(None) for a in range(len(sh)))]
                         c = dict(case); c["shape"] = list(sub.shape); c["bits"] = _bits(sub)
                         yield c
+
+        if case.get("kind") == "stathist":
+            ops = case["ops"]
+            for i in range(len(ops)):
+                if len(ops) > 1:
+                    yield dict(case, ops=ops[:i] + ops[i + 1:])
+            for i, op in enumerate(ops):
+                if op["as"] != "list":
+                    yield dict(case, ops=ops[:i] + [dict(op, **{"as": "list"})] + ops[i + 1:])
+                if len(op["search"]) > 1:
+                    yield dict(case, ops=ops[:i] + [dict(op, search=op["search"][:-1])] + ops[i + 1:])
+            if case["dim0"] > 0:
+                yield dict(case, dim0=case["dim0"] - 1)
+        if case.get("kind") == "ecvec":
+            n = len(case["xs"])
+            if n > 1:
+                yield dict(case, shape=[1], xs=case["xs"][:1])
+                yield dict(case, shape=[n - 1], xs=case["xs"][1:])
+            if len(case["search"]) > 1:
+                yield dict(case, search=case["search"][:-1])
+            if case["search_as"] != "list":
+                yield dict(case, search_as="list")
 
     def classify(self, case, failure):
         if case.get("kind") == "lips" and list(case.get("shape", [])) in ([1, 1, 1], [1, 1]) and \
